@@ -213,14 +213,14 @@ def limit_doc(depth, elems, noise):
 
 def doc_events(doc):
     evs = []
-    for m in re.finditer(r'<!--.*?-->|<\?.*?\?>|<e/>|<e>|</e>', doc):
+    for m in re.finditer(r'<!--.*?-->|<\?.*?\?>|<e( [^>]*)?/>|<e( [^>]*)?>|</e>', doc):
         t = m.group(0)
-        if t == '<e>':
+        if t.startswith('<e') and t.endswith('/>'):
+            evs += ['EvStart', 'EvEnd']
+        elif t.startswith('<e'):
             evs.append('EvStart')
         elif t == '</e>':
             evs.append('EvEnd')
-        elif t == '<e/>':
-            evs += ['EvStart', 'EvEnd']
         elif t.startswith('<?xml'):
             continue
         else:
@@ -262,6 +262,12 @@ def check_limits(ctx):
                             continue
                         for lazy in (False, True):
                             cases.append({'D': D, 'E': E, 'depth': depth, 'elems': elems, 'noise': noise, 'lazy': lazy, 'doc': doc})
+    # records whose last child declares a namespace: the depth stays 3 however many records there are
+    for D in (3, 4, 5):
+        for k in (1, 2, 5, 20):
+            doc = '<?xml version="1.0"?><e>' + '<e><e/><e xmlns:x="urn:x"/></e>' * k + '</e>'
+            for lazy in (False, True):
+                cases.append({'D': D, 'E': 1000, 'depth': 3, 'elems': 1 + 3 * k, 'noise': False, 'lazy': lazy, 'doc': doc})
     impl = common.pool_map(subject_limit, cases)
     terms = ['(parse_limited %d %d %s [%s])' % (c['D'], c['E'], 'true' if c['lazy'] else 'false', '; '.join(doc_events(c['doc'])))
              for c in cases]
